@@ -123,6 +123,24 @@ def gen_cases(tier, seed):
             s['exit'] = rng.choice(['shutdown', 'with'])
             s['plan'] = {'gate': {'match': rng.choice(['s3:GetObject', '/pp:job_complete']), 'phase': 'before', 'policy': pol}}
             cases.append(s)
+    # a download that was already cancelled when its submission step then FAILS (the size query is refused, the temporary file cannot be
+    # allocated): it still becomes done
+    for base in bl:
+        for tgt in range(len(base['transfers'])):
+            for (fkey, fphase, fkind) in ((f't{tgt}/s3:HeadObject#0', 'after', 'client4xx'), (f't{tgt}/s3:HeadObject#0', 'after', 'exc'),
+                                          (f't{tgt}/fs:allocate#0', 'before', 'oserror')):
+                for cat, cphase in ((f't{tgt}/s3:HeadObject#0', 'before'), (f't{tgt}/s3:HeadObject#0', 'after'), ('@after_submit', 'before')):
+                    if quick and rng.random() < 0.5:
+                        continue
+                    if cphase == 'after' and 'HeadObject' in fkey:
+                        continue  # (the fault is raised at that very point: the cancel would never be reached)
+                    s = copy.deepcopy(base)
+                    s['seed'] = rng.randrange(1 << 30)
+                    s['exit'] = rng.choice(['shutdown', 'with'])
+                    s['family'] = 'cancel+submission-fault'
+                    s['plan'] = {'cancel': {'at': cat, 'phase': cphase, 'how': 'future.cancel', 'target': tgt},
+                                 'faults': [{'at': fkey, 'phase': fphase, 'kind': fkind, 'tag': 'FAULT-ppsub'}]}
+                    cases.append(s)
     # Ctrl-C in the with-block when an earlier download has finished and later ones have not (their requests are held at a gate)
     for i in range(20 if quick else 200):
         nd = rng.choice([2, 3])
